@@ -497,7 +497,7 @@ func c07one(rc *sim.RunCtx, hist []*TxSpec, target int, coldSchema, seqVal bool,
 func init() {
 	Register(&sim.Check{
 		ID: "C07", Level: "fault_enumeration", Run: runC07,
-		Rule: "per run: a generated history (2-5 transactions, thorough up to 9) is executed fault-free (reference) with a counting pass that numbers every collaborator call of one chosen transaction (target.Set, cache Read/ReadCh/GetKeys/Modify, schema GetSchema; cold schema index after a restart in 1/3 of runs). Then for sampled (call index, kind) pairs - always one device fault and one cache Modify fault; kinds: device reject/unreachable/lost-reply, cache error/torn write/lost ack/empty or short read, schema error, fail-stop crash + restart over the same badger directory - the history is replayed in a fresh world with that single fault, the same request is retried and the history continues. Every fault case counts as non-trivial; distinct = (kind, collaborator call).",
+		Rule: "per run: a generated history (2-5 transactions, thorough up to 9) is executed fault-free (reference) with a counting pass that numbers every collaborator call of one chosen transaction (target.Set, cache Read/ReadCh/GetKeys/Modify, schema GetSchema; cold schema index after a restart in 1/3 of runs). Then for sampled (call index, kind) pairs - always one device fault and one cache Modify fault; kinds: device reject/unreachable/lost-reply, cache error/torn write/lost ack/empty or short read, schema error, fail-stop crash + restart over the same badger directory - the history is replayed in a fresh world with that single fault (at the wire when the device is the real gnmiTarget, half of the runs), the same request is retried and the history continues. Cancel leg (a quarter of the runs): the target transaction is left open and cancelled, one collaborator call of the rollback fails once, a Cancel that failed is repeated and must succeed and end in the state of the fault-free cancel. Every fault case counts as non-trivial; distinct = (kind, collaborator call).",
 		Real: append(append([]string{}, realCore...), "fault decorators sit between the real Datastore and the real cache / schema clients"), Stub: stubCore,
 		RequiredProbes: []string{"restart"}, MapOrderSensitive: true,
 		QuickSeconds: 40, ThoroughSeconds: 720,
